@@ -155,6 +155,25 @@ struct Mk {
 struct Mk1 {
   MAKE_MOCK1(f, int(int));
 };
+struct Mk1m {   // the same, movable: the library keeps its expectation lists in another class template specialisation
+  static constexpr bool trompeloeil_movable_mock = true;
+  MAKE_MOCK1(f, int(int));
+};
+// a thread's private mock object of either class
+struct OwnMock {
+  virtual ~OwnMock() = default;
+  virtual int call(int a) = 0;
+  virtual std::unique_ptr<trompeloeil::expectation> expect(trompeloeil::sequence* s, std::size_t lo, std::size_t hi, int id) = 0;
+};
+template <class M>
+struct OwnMockT : OwnMock {
+  M m;
+  int call(int a) override { return m.f(a); }
+  std::unique_ptr<trompeloeil::expectation> expect(trompeloeil::sequence* s, std::size_t lo, std::size_t hi, int id) override {
+    if (s) return NAMED_REQUIRE_CALL(m, f(trompeloeil::_)).IN_SEQUENCE(*s).RT_TIMES(lo, hi).RETURN(id);
+    return NAMED_REQUIRE_CALL(m, f(trompeloeil::_)).RT_TIMES(lo, hi).RETURN(id);
+  }
+};
 struct Dw { virtual ~Dw() = default; int x = 0; };
 
 struct DataPred { bool operator()(int v, int want) const { return want < 0 || v == want; } };
@@ -176,7 +195,7 @@ struct World {
   std::unique_ptr<trompeloeil::expectation> slot[NSLOTS];
   trompeloeil::deathwatched<Dw>* dw[MAXTH + 1] = {};
   std::unique_ptr<trompeloeil::expectation> mon[MAXTH + 1];
-  Mk1* own_mock[MAXTH + 1] = {};
+  OwnMock* own_mock[MAXTH + 1] = {};
   std::unique_ptr<trompeloeil::expectation> own_exp[MAXTH + 1];
   // an expectation on a thread's private mock handed over to whichever thread takes it first (T_ADOPT, or the owner when
   // it destroys the mock): release of an expectation by one thread while another destroys the mock object
@@ -546,7 +565,7 @@ static void run_op(int tid, int opi, const Op& o, std::vector<int>& slot_id, int
         // a mock object private to this thread: create, put an expectation on it, maybe call, destroy
         int mi = NMOCK + oi;
         if (!Wd->own_mock[oi]) {
-          Wd->own_mock[oi] = new Mk1;
+          if ((o.a / 16) % 2) Wd->own_mock[oi] = new OwnMockT<Mk1m>; else Wd->own_mock[oi] = new OwnMockT<Mk1>;
           int id = id_base + opi + 1;
           long lo = o.a % 2, hi = 1 + o.a % 2;
           if ((o.a / 2) % 2) {
@@ -555,11 +574,11 @@ static void run_op(int tid, int opi, const Op& o, std::vector<int>& slot_id, int
             ev(E_REG, id, k);
             ev(E_LIMITS, id, 0, 0, 0, lo, hi);
             ev(E_HOOK, id, mi, 0, -1);
-            Wd->own_exp[oi] = NAMED_REQUIRE_CALL(*Wd->own_mock[oi], f(trompeloeil::_)).IN_SEQUENCE(*Wd->seq[k]).RT_TIMES(static_cast<size_t>(lo), static_cast<size_t>(hi)).RETURN(id);
+            Wd->own_exp[oi] = Wd->own_mock[oi]->expect(Wd->seq[k].get(), static_cast<size_t>(lo), static_cast<size_t>(hi), id);
           } else {
             ev(E_LIMITS, id, 0, 0, 0, lo, hi);
             ev(E_HOOK, id, mi, 0, -1);
-            Wd->own_exp[oi] = NAMED_REQUIRE_CALL(*Wd->own_mock[oi], f(trompeloeil::_)).RT_TIMES(static_cast<size_t>(lo), static_cast<size_t>(hi)).RETURN(id);
+            Wd->own_exp[oi] = Wd->own_mock[oi]->expect(nullptr, static_cast<size_t>(lo), static_cast<size_t>(hi), id);
           }
           ownexp_id = id;
           if ((o.a / 8) % 2) {   // hand the expectation over: published with release order, taken with an atomic exchange
@@ -568,7 +587,7 @@ static void run_op(int tid, int opi, const Op& o, std::vector<int>& slot_id, int
           }
           res = "own-created";
         } else {
-          if (o.b % 2) { ev(E_CALL, 0, mi, 0, 1); int r = Wd->own_mock[oi]->f(1); res = "R:" + std::to_string(r) + ";"; }
+          if (o.b % 2) { ev(E_CALL, 0, mi, 0, 1); int r = Wd->own_mock[oi]->call(1); res = "R:" + std::to_string(r) + ";"; }
           ev(E_OWNMOCK_DTOR, 0, mi);
           delete Wd->own_mock[oi];
           Wd->own_mock[oi] = nullptr;
@@ -960,7 +979,7 @@ static rc::Gen<Op> gen_op(bool prologue) {
       case T_RELEASE: case T_QSAT: case T_QSATU: o.a = small(2); break;
       case T_QCOMP: o.a = small(3) ? 0 : 1; break;
       case T_WATCH: o.a = small(2); o.b = small(3) ? 0 : 1; break;
-      case T_MOCKLIFE: o.a = small(16); o.b = small(2); break;
+      case T_MOCKLIFE: o.a = small(32); o.b = small(2); break;
       case T_ADOPT: o.a = small(4); break;
       case T_SREL: o.a = small(2); o.b = small(3); break;
       case T_SKILL: case T_SWATCH: o.a = small(2); break;
@@ -1009,7 +1028,7 @@ static rc::Gen<Program> gen_program(int max_threads, int max_ops) {
       int u = (t + 1 + *rc::gen::resize(100, rc::gen::inRange(0, p.nthreads - 1))) % p.nthreads;   // u != t
       auto& v = p.ops[static_cast<size_t>(t)];
       size_t p1 = static_cast<size_t>(*rc::gen::resize(100, rc::gen::inRange(0, static_cast<int>(v.size()) + 1)));
-      v.insert(v.begin() + static_cast<long>(p1), Op{T_MOCKLIFE, 8 + *rc::gen::resize(100, rc::gen::inRange(0, 8)), 0});
+      v.insert(v.begin() + static_cast<long>(p1), Op{T_MOCKLIFE, 8 + *rc::gen::resize(100, rc::gen::inRange(0, 8)) + 16 * *rc::gen::resize(100, rc::gen::inRange(0, 2)), 0});
       size_t p2 = p1 + 1 + static_cast<size_t>(*rc::gen::resize(100, rc::gen::inRange(0, static_cast<int>(v.size() - p1))));
       v.insert(v.begin() + static_cast<long>(p2), Op{T_MOCKLIFE, 0, *rc::gen::resize(100, rc::gen::inRange(0, 2))});
       auto& w = p.ops[static_cast<size_t>(u)];
